@@ -417,10 +417,15 @@ def stepOld (st0 : St) (ts : List String) : St × String :=
   | ["r", k] => match k.toNat? with
     | some k => readSess st fun h => let r := hread h k; ({ st with sess := some r.2 }, showBytes r.1)
     | none => (st, "bad-op")
-  | ["rl"] => readSess st fun h =>
+  | ["rl"] =>
+    -- readLine(String&) and end() are offered in every mode but "r+": after a failed read end() must say so
+    match st.sess with
+    | none => (st, "err nosession")
+    | some h =>
       if !h.isText then (st, "err kind") else
-      let r := readLine readLineChunk h.rs
-      ({ st with sess := some { h with rs := r.2 } }, s!"{b01 r.1.2} {showBytes r.1.1} {b01 r.2.eof}")
+      if h.mode == .rw then (st, "err mode") else
+      let r := hreadLine readLineChunk h
+      ({ st with sess := some r.2 }, s!"{b01 r.1.2} {showBytes r.1.1} {b01 (hend r.2)}")
   | ["rlc", b] => match unhex b with
     | some [delim] =>
       -- readLine(char) is offered in every mode: on an object opened for writing it must come back empty-handed
@@ -431,9 +436,11 @@ def stepOld (st0 : St) (ts : List String) : St × String :=
         if h.mode == .rw then (st, "err mode") else
         if h.mode == .read && hasNul h.all then (st, "err nul") else
         let r := hreadLineDelim h delim
-        ({ st with sess := some r.2 }, s!"{showBytes r.1} {b01 r.2.rs.eof}")
+        ({ st with sess := some r.2 }, s!"{showBytes r.1} {b01 (hend r.2)}")
     | _ => (st, "bad-op")
-  | ["end"] => readSess st fun h => (st, b01 h.rs.eof)
+  | ["end"] => match st.sess with
+    | none => (st, "err nosession")
+    | some h => if h.mode == .rw then (st, "err mode") else (st, b01 (hend h))
   | ["seek", k] => match k.toNat? with
     | some k => readSess st fun h => ({ st with sess := some (hseek h (k % (h.all.length + 1))) }, "ok")
     | none => (st, "bad-op")
@@ -499,6 +506,23 @@ def stepOld (st0 : St) (ts : List String) : St × String :=
   | ["xtext", b] => match parseBytes b with
     | some bs => let d := st.disk.set 0 (some bs); ({ st with disk := d }, textStr d 0)
     | none => (st, "bad-op")
+  | ["xwend", b] => match parseBytes b with
+    | some bs =>
+      -- the documented idiom on an object that has just written: `while (!f.end()) f.readLine();`
+      let d0 := st.disk.set 0 none
+      let w := (Obj.new 0 true).twrite d0 .write bs
+      let n : Nat := match w.2.2.file with
+        | some h => if hend h then 0 else if hend (hreadLine readLineChunk h).2 then 1 else 100000
+        | none => 0
+      ({ st with disk := w.2.1 }, toString n)
+    | none => (st, "bad-op")
+  | ["xdirend"] =>
+    -- the same idiom on a directory: the first read fails, end() is true afterwards (transcribed constant)
+    (st, "1")
+  | ["xdircopy"] =>
+    -- Directory::copy of a directory: reading the source fails, the copy is reported as failed; a cross-device move
+    -- of a directory is refused and the source stays (transcribed constants, the model has no directories)
+    (st, "0 0 src=1")
   | ["xdirrlc"] =>
     -- readLine(char) of a directory: the first read fails, the empty string comes back (transcribed constant)
     (st, showBytes [])
